@@ -43,7 +43,7 @@ impl AsyncWrite for ScriptSink {
         }
         let mut c = c - accept.len();
         if can_pend { if c == 0 { s.pend_run += 1; s.pendings += 1; if s.log.len() < 64 { s.log.push("pending".into()) } cx.waker().wake_by_ref(); return Poll::Pending } c -= 1 }
-        if can_err { if c == 0 { s.errors += 1; s.pend_run = 0; if s.log.len() < 64 { s.log.push("error".into()) } return Poll::Ready(Err(io::Error::new(io::ErrorKind::ConnectionReset, "transient scripted error"))) } c -= 1 }
+        if can_err { if c == 0 { s.errors += 1; s.pend_run = 0; if s.log.len() < 64 { s.log.push("error".into()) } return Poll::Ready(Err(crate::sched::transient_error())) } c -= 1 }
         let _ = c;
         s.zeros += 1;
         s.pend_run = 0;
@@ -160,8 +160,8 @@ fn run_schedule(items: &[Item], max_len: u32, ch: Shared, b: Bounds, idle_syncs:
                 // every injected fault surfaces exactly once, with the documented kind
                 let zeros = st.borrow().zeros - zeros_before;
                 let errors = st.borrow().errors - errors_before;
-                let got_zero = surfaced.iter().filter(|e| matches!(e, Error::Io(x) if x.kind() == io::ErrorKind::WriteZero)).count();
-                let got_err = surfaced.iter().filter(|e| matches!(e, Error::Io(x) if x.kind() == io::ErrorKind::ConnectionReset)).count();
+                let got_zero = surfaced.iter().filter(|e| matches!(e, Error::Io(x) if x.kind() == io::ErrorKind::WriteZero && !crate::sched::is_transient(x))).count();
+                let got_err = surfaced.iter().filter(|e| matches!(e, Error::Io(x) if crate::sched::is_transient(x))).count();
                 if got_zero != zeros { return Err(Fail::new("write-zero", format!("the sink accepted 0 bytes {} times but {} WriteZero errors surfaced; {}", zeros, got_zero, describe(&st)))) }
                 if got_err != errors { return Err(Fail::new("error-count", format!("{} transient errors injected, {} surfaced; {}", errors, got_err, describe(&st)))) }
                 if surfaced.len() != got_zero + got_err { return Err(Fail::new("unexpected-error", format!("unexpected errors {:?}; {}", surfaced.iter().map(|e| e.to_string()).collect::<Vec<_>>(), describe(&st)))) }
@@ -205,6 +205,7 @@ fn exhaustive(i: u64, st: &mut Stats, b: Bounds, cap: u64) -> CaseResult {
     let all = dfs_items();
     let (items, max_len, idle) = &all[(i as usize / split_count()) % all.len()];
     let fixed = split_prefix(i as usize % split_count());
+    crate::sched::set_err_kind(crate::sched::ERR_KINDS[[0usize, 5, 2][(i as usize / split_count()) % 3]]);
     let mut nontrivial = 0u64;
     let (count, done) = dfs(&fixed, cap, |ch| {
         let info = run_schedule(items, *max_len, ch, b, idle)?;
@@ -237,6 +238,8 @@ fn random_walk(g: &mut Gen, st: &mut Stats) -> CaseResult {
     let idle: Vec<bool> = (0 .. n).map(|_| g.bool()).collect();
     let ctor = crate::sched::draw_prebuf(g);
     st.class(&format!("walk/AsyncWriter::{}", ctor));
+    let kind = *g.pick(&crate::sched::ERR_KINDS);
+    crate::sched::set_err_kind(kind);
     let info = run_schedule(&items, max_len, ch, b, &idle)?;
     if info.cancelled_writes > 0 || info.partials > 0 { st.nontrivial(hash_of(&(format!("{:?}", items).len(), info.partials, info.pendings, info.cancelled_writes, info.errors, info.zeros))) }
     st.class(if info.cancelled_writes > 0 { "walk/cancelled-write-resumed-by-sync" } else if info.partials > 0 { "walk/short-writes" } else { "walk/straight" });
